@@ -762,7 +762,12 @@ func c07Corpus(prop string) func() []any {
 			Mode: "target", Start: 5, KSel: 5, Filter: "default", Pauses: []c07Pause{{After: 10, Push: 2}, {After: 12, Push: 8}}, Shape: "corpus/target-join-on-fork"}
 		targetJoinOnFork13 := &c07Input{Prop: prop, First: 2, Kept: 5, Bundle: 10, Root: b(2), Arrival: arr, A0: 11, HubStart: 12, Merged: 20,
 			Mode: "target", Start: 5, KSel: 10, Filter: "default", Pauses: []c07Pause{{After: 10, Push: 2}, {After: 12, Push: 8}}, Shape: "corpus/target-join-on-fork"}
-		return []any{joinOnFork, finalAboveLib, finalCursorAhead, targetJoinOnFork8, targetJoinOnFork13}
+		// final blocks only THROUGH a target cursor, start block below the cursor block: every final block from the start
+		// block on, also those at or below the cursor block (seeded mutant C07-m5: the filter's memory must not start at a
+		// TARGET cursor)
+		finalTarget := &c07Input{Prop: prop, First: 2, Kept: 5, Bundle: 4, Root: lag(2), Arrival: arr2, A0: 12, HubStart: 6, Merged: 8,
+			Mode: "target", Start: 4, Filter: "final", KSel: 5, Shape: "corpus/final-only-target-start-below-cursor"}
+		return []any{joinOnFork, finalAboveLib, finalCursorAhead, finalTarget, targetJoinOnFork8, targetJoinOnFork13}
 	}
 }
 
